@@ -8,8 +8,9 @@
 set -u
 d="$1"; id="$2"; tier="${3:-quick}"
 MAIN=/var/tmp/pysph-verif
-SEED=/var/tmp/pysph-verif-seed
-SRC=/var/tmp/pysph-seed-repo
+tag=$(basename "$d")-$id
+SEED=/var/tmp/pysph-verif-seed-$tag
+SRC=/var/tmp/pysph-seed-repo-$tag
 rm -rf "$SRC" "$SEED"; mkdir -p "$SRC" "$SEED"
 git -C /repo archive HEAD | tar -x -C "$SRC" || exit 2
 ( cd "$SRC" && git init -q . && git apply -v "$d/patch.diff" 2>&1 | grep -i "offset" && echo "WARNING: hunk applied with offset - check it landed in the intended function" )
